@@ -30,7 +30,7 @@ use {
   common::*,
   ixlib::{
     Flags, Node, UpdateOutcome,
-    chaingen::{self, Gen, p2tr, p2wpkh},
+    chaingen::{self, Gen, Utxo, p2tr, p2wpkh},
     emit::emit_block,
     env::{self, Ix, make_header},
   },
@@ -201,6 +201,19 @@ struct Params {
   /// `Some` = forced (by `--prerune` or by the replayed scenario line)
   prerune: Option<bool>,
   model: bool,
+  /// `Some(r)` = stream `regtest-fh`: chain regtest, `first_inscription_height` overridden to
+  /// `prefix` and `first_rune_height` to `r` (ord::verif::overrides); `None` = signet as it is
+  short: Option<u32>,
+}
+
+impl Params {
+  fn chain(&self) -> &'static str {
+    if self.short.is_some() { "regtest" } else { "signet" }
+  }
+  /// below this prefix length a case is always clean (debugging runs of `signet` with a toy prefix)
+  fn min_lossy_prefix(&self) -> u32 {
+    if self.short.is_some() { 6 } else { 16 }
+  }
 }
 
 fn ftag(f: Flags) -> String {
@@ -238,11 +251,16 @@ fn pool_script(rng: &mut Rng) -> ScriptBuf {
 
 /// 1–3 outputs from the small script pool summing to `total`; a few zero-value outputs; many
 /// coinbases repeat the same values (one output of the whole subsidy, halves, 546, 10000, 1)
-fn prefix_outs(rng: &mut Rng, total: u64, dist: &mut Dist) -> Vec<TxOut> {
-  let n = match rng.below(10) {
-    0..=5 => 1,
-    6..=8 => 2,
-    _ => 3,
+fn prefix_outs(rng: &mut Rng, total: u64, short: bool, dist: &mut Dist) -> Vec<TxOut> {
+  let n = if short {
+    // few blocks: more outputs per coinbase, so that the pool has many different vouts
+    1 + rng.below(5) as usize
+  } else {
+    match rng.below(10) {
+      0..=5 => 1,
+      6..=8 => 2,
+      _ => 3,
+    }
   };
   let mut vals = Vec::new();
   let mut avail = total;
@@ -273,6 +291,135 @@ fn prefix_outs(rng: &mut Rng, total: u64, dist: &mut Dist) -> Vec<TxOut> {
     }
   }
   vals.into_iter().map(|v| TxOut { value: Amount::from_sat(v), script_pubkey: pool_script(rng) }).collect()
+}
+
+fn pointer_bytes(p: u64) -> Vec<u8> {
+  let mut v = p.to_le_bytes().to_vec();
+  while v.last() == Some(&0) {
+    v.pop();
+  }
+  v
+}
+
+/// `OP_FALSE OP_IF "ord" 1 "text/plain;charset=utf-8" [2 <pointer>] 0 <body> OP_ENDIF`
+fn envelope_script(pointer: Option<u64>, body: &[u8]) -> ScriptBuf {
+  let mut b = push(script::Builder::new().push_opcode(opcodes::OP_FALSE).push_opcode(opcodes::all::OP_IF), b"ord");
+  b = push(push(b, &[1]), b"text/plain;charset=utf-8");
+  if let Some(p) = pointer {
+    b = push(push(b, &[2]), &pointer_bytes(p));
+  }
+  push(b.push_opcode(opcodes::OP_FALSE), body).push_opcode(opcodes::all::OP_ENDIF).into_script()
+}
+
+/// Stream `regtest-fh`: a block `[coinbase, reveal]` where the reveal spends 2–6 prefix outputs
+/// (as many of them as possible ones the 000 index has to fetch, neighbours at different vouts),
+/// carries an envelope on input 0 — with a pointer beyond the value of input 0 in most cases — and
+/// one on a later input, whose offset is the sum of the values of the inputs before it.
+fn multi_fetch_block(
+  g: &mut Gen,
+  rng: &mut Rng,
+  node: &Node,
+  prefix: u32,
+  is_fetched: &dyn Fn(&OutPoint, u32) -> bool,
+  dist: &mut Dist,
+) -> Option<Block> {
+  let height = node.height() + 1;
+  let mut cand: Vec<usize> =
+    (0..g.utxos.len()).filter(|&i| g.utxos[i].height < prefix && !g.utxos[i].script.is_op_return()).collect();
+  // those the node has to be asked for first, in random order
+  for i in (1..cand.len()).rev() {
+    cand.swap(i, rng.below(i as u64 + 1) as usize);
+  }
+  cand.sort_by_key(|&i| !is_fetched(&g.utxos[i].op, g.utxos[i].height));
+  if cand.len() < 2 {
+    dist.hit("multi_fetch_no_candidates");
+    return None;
+  }
+  let k = (2 + rng.below(5) as usize).min(cand.len());
+  let window = cand.len().min(k + 6);
+  let mut pool: Vec<Utxo> = cand[..window].iter().map(|&i| g.utxos[i].clone()).collect();
+  let mut chosen: Vec<Utxo> = Vec::new();
+  while chosen.len() < k {
+    // neighbours at different vouts where the pool allows it
+    let j = match chosen.last() {
+      Some(last) => pool.iter().position(|u| u.op.vout != last.op.vout).unwrap_or(0),
+      None => 0,
+    };
+    chosen.push(pool.remove(j));
+  }
+  g.utxos.retain(|u| !chosen.iter().any(|c| c.op == u.op));
+  let total_in: u64 = chosen.iter().map(|u| u.value).sum();
+  let fee = rng.below(total_in.min(5000) + 1);
+  let total_out = total_in - fee;
+  // 1–3 outputs
+  let n_out = 1 + rng.below(3) as usize;
+  let mut vals = Vec::new();
+  let mut avail = total_out;
+  for i in 0..n_out {
+    let v = if i + 1 == n_out { avail } else { rng.below(avail + 1) };
+    avail -= v;
+    vals.push(v);
+  }
+  let v0 = chosen[0].value;
+  let pointer = if total_out == 0 {
+    None
+  } else {
+    match rng.below(6) {
+      0 => None,
+      1 => Some(v0.min(total_out - 1)),
+      2 => Some((v0 + chosen[1].value / 2).min(total_out - 1)),
+      3 => Some(total_out - 1),
+      4 => Some(total_out), // ignored: not below the total output value
+      _ => Some(rng.below(total_out)),
+    }
+  };
+  if let Some(ptr) = pointer {
+    dist.hit(if ptr >= v0 { "multi_fetch_pointer_beyond_input0" } else { "multi_fetch_pointer_in_input0" });
+  }
+  let second = 1 + rng.below(k as u64 - 1) as usize;
+  let input = chosen
+    .iter()
+    .enumerate()
+    .map(|(i, u)| TxIn {
+      previous_output: u.op,
+      script_sig: ScriptBuf::new(),
+      sequence: Sequence::MAX,
+      witness: if i == 0 {
+        Witness::from_slice(&[envelope_script(pointer, b"mf0").into_bytes(), Vec::new()])
+      } else if i == second {
+        Witness::from_slice(&[envelope_script(None, b"mf1").into_bytes(), Vec::new()])
+      } else {
+        Witness::new()
+      },
+    })
+    .collect();
+  let reveal = Transaction {
+    version: Version(2),
+    lock_time: LockTime::ZERO,
+    input,
+    output: vals
+      .iter()
+      .map(|&v| TxOut { value: Amount::from_sat(v), script_pubkey: if rng.chance(1, 2) { p2tr(7) } else { p2wpkh(4) } })
+      .collect(),
+  };
+  assert_eq!(ord::ParsedEnvelope::from_transaction(&reveal).len(), 2);
+  let subsidy = ordinals::Height(height).subsidy();
+  // the coinbase claims the fee, or leaves it (lost sats above the first inscription height)
+  let claim = if rng.chance(3, 4) { subsidy + fee } else { subsidy };
+  let cb = coinbase(height, vec![TxOut { value: Amount::from_sat(claim), script_pubkey: p2wpkh(1) }]);
+  for tx in [&cb, &reveal] {
+    let txid = tx.compute_txid();
+    g.txs.insert(txid, (tx.clone(), height));
+    for (vout, o) in tx.output.iter().enumerate() {
+      g.utxos.push(Utxo { op: OutPoint { txid, vout: vout as u32 }, value: o.value.to_sat(), script: o.script_pubkey.clone(), height, hot: tx.input.len() > 1 });
+    }
+  }
+  let rid = reveal.compute_txid();
+  g.ins_ids.push(InscriptionId { txid: rid, index: 0 });
+  g.ins_ids.push(InscriptionId { txid: rid, index: 1 });
+  dist.hit("multi_fetch_reveal");
+  dist.add("multi_fetch_reveal_inputs", k as u64);
+  Some(Block { header: make_header(node.tip(), height, rng.next_u64() as u32), txdata: vec![cb, reveal] })
 }
 
 enum Failure {
@@ -332,7 +479,7 @@ fn peak_rss_mb() -> u64 {
 }
 
 fn scenario_line(p: &Params, prerune: bool) -> String {
-  format!(
+  let mut line = format!(
     "flagsx.scenario seed={} case={} mode={} prefix={} rounds={} tailblocks={} prerune={}",
     p.seed,
     p.case,
@@ -341,7 +488,11 @@ fn scenario_line(p: &Params, prerune: bool) -> String {
     p.rounds,
     p.tailblocks,
     prerune as u8
-  )
+  );
+  if let Some(r) = p.short {
+    line.push_str(&format!(" chain=regtest first_ins={} first_rune={r}", p.prefix));
+  }
+  line
 }
 
 fn run_case(p: &Params, rng: &mut Rng, out: &mut Streams, dist: &mut Dist, scratch: &Path) {
@@ -355,7 +506,7 @@ fn run_case(p: &Params, rng: &mut Rng, out: &mut Streams, dist: &mut Dist, scrat
   let gen_rng = rng.fork();
   let mut tail = rng.fork();
   let coin = plan.chance(1, 2);
-  let prerune = p.lossy && p.prefix >= 16 && p.prerune.unwrap_or(coin);
+  let prerune = p.lossy && p.prefix >= p.min_lossy_prefix() && p.prerune.unwrap_or(coin);
   let hi = p.prefix.saturating_sub(1).max(1); // last prefix height
   // underpaying coinbases: 1–3 distinct prefix heights, kinds rotate over
   // {by 1, by a random amount, claims nothing at all}
@@ -366,7 +517,7 @@ fn run_case(p: &Params, rng: &mut Rng, out: &mut Streams, dist: &mut Dist, scrat
     let h = 1 + plan.below(u64::from(hi)) as u32;
     under.entry(h).or_insert((k0 + j as u64) % 3);
   }
-  if !p.lossy || p.prefix < 16 {
+  if !p.lossy || p.prefix < p.min_lossy_prefix() {
     under.clear();
   }
   // prefix rune: block `hp` carries a transaction spending output 0.. of the coinbase of `h0`
@@ -390,6 +541,9 @@ fn run_case(p: &Params, rng: &mut Rng, out: &mut Streams, dist: &mut Dist, scrat
     for h in hi.saturating_sub(19).max(1)..=hi {
       sample.insert(h);
     }
+    if p.short.is_some() {
+      sample.extend(1..=hi);
+    }
     sample.extend(under.keys().copied());
     if prerune {
       sample.insert(h0);
@@ -408,10 +562,14 @@ fn run_case(p: &Params, rng: &mut Rng, out: &mut Streams, dist: &mut Dist, scrat
   if let Some(n) = std::env::var("FLAGSX_INDEXES").ok().and_then(|v| v.parse::<usize>().ok()) {
     flag_sets.truncate(n.clamp(2, 4));
   }
+  // activation heights: the chain's own (signet) or overridden for the whole process (one case
+  // at a time; the four indexes of a case share them)
+  ord::verif::overrides::set_first_inscription_height(p.short.map(|_| p.prefix));
+  ord::verif::overrides::set_first_rune_height(p.short);
   let slots: Vec<Slot> = flag_sets
     .iter()
     .map(|&flags| {
-      let node = Node::new("signet", scratch);
+      let node = Node::new(p.chain(), scratch);
       let ix = env::open(&node, scratch, flags, &[], false);
       Slot { flags, tag: ftag(flags), node, ix }
     })
@@ -441,7 +599,7 @@ fn run_case(p: &Params, rng: &mut Rng, out: &mut Streams, dist: &mut Dist, scrat
       }
     };
     prelost += subsidy - total;
-    let outs = if total == 0 { vec![TxOut { value: Amount::ZERO, script_pubkey: pool_script(&mut body) }] } else { prefix_outs(&mut body, total, dist) };
+    let outs = if total == 0 { vec![TxOut { value: Amount::ZERO, script_pubkey: pool_script(&mut body) }] } else { prefix_outs(&mut body, total, p.short.is_some(), dist) };
     let cb = coinbase(h, outs);
     if h == h0 {
       h0_out = cb
@@ -477,7 +635,9 @@ fn run_case(p: &Params, rng: &mut Rng, out: &mut Streams, dist: &mut Dist, scrat
   }
   dist.add("prefix_blocks", u64::from(p.prefix.saturating_sub(1)));
   let build_secs = t_build.elapsed().as_secs_f64();
-  eprintln!("[flagsx] case {case} mode {mode}: prefix of {} blocks built in {build_secs:.1}s, prelost={prelost} prerune={}", p.prefix.saturating_sub(1), prerune as u8);
+  if p.short.is_none() {
+    eprintln!("[flagsx] case {case} mode {mode}: prefix of {} blocks built in {build_secs:.1}s, prelost={prelost} prerune={}", p.prefix.saturating_sub(1), prerune as u8);
+  }
 
   // ---- generator: genesis + the sampled prefix blocks, in height order
   let mut g = Gen::new(gen_rng, network);
@@ -509,7 +669,10 @@ fn run_case(p: &Params, rng: &mut Rng, out: &mut Streams, dist: &mut Dist, scrat
   // lines); with notes/fix-C15-runes-first-index-height.diff applied both see it.  Either way
   // `dump ins|runes|stats` of the 000 index must equal the model's.
   if p.model {
-    out.emit("cfg sats=0 addr=0 tx=0 ins=1 runes=1 first_ins=112402 jubilee=175392 first_rune=0", "ok");
+    match p.short {
+      None => out.emit("cfg sats=0 addr=0 tx=0 ins=1 runes=1 first_ins=112402 jubilee=175392 first_rune=0", "ok"),
+      Some(r) => out.emit(&format!("cfg sats=0 addr=0 tx=0 ins=1 runes=1 first_ins={} jubilee=110 first_rune={r}", p.prefix), "ok"),
+    }
     emit_block(out, 0, &genesis, network, &g.txs);
     out.emit("endblock", "ok");
     for &h in &sample {
@@ -527,7 +690,9 @@ fn run_case(p: &Params, rng: &mut Rng, out: &mut Streams, dist: &mut Dist, scrat
   };
   let res = update_all(&slots, Duration::from_secs(1800));
   for (slot, (r, secs)) in slots.iter().zip(&res) {
-    eprintln!("[flagsx] case {case} mode {mode}: prefix indexed by {} in {secs:.1}s ({:?})", slot.tag, r);
+    if p.short.is_none() {
+      eprintln!("[flagsx] case {case} mode {mode}: prefix indexed by {} in {secs:.1}s ({:?})", slot.tag, r);
+    }
     dist.add(&format!("prefix_secs_{}", slot.tag), secs.round() as u64);
   }
   for (slot, (r, _)) in slots.iter().zip(&res) {
@@ -535,6 +700,30 @@ fn run_case(p: &Params, rng: &mut Rng, out: &mut Streams, dist: &mut Dist, scrat
       fail(out, dist, &format!("case={case} mode={mode} round=prefix flags={}", slot.tag), Failure::Update(e.clone()));
       return;
     }
+  }
+
+  // ---- which prefix outputs does the 000 index hold locally?  (short chain: read its UTXO
+  // rows; signet: all of them or none, `have_full_utxo_index`.)  The others it must ask the node for.
+  let tracked0: Option<BTreeSet<String>> = p.short.map(|_| {
+    slots[0]
+      .ix
+      .index
+      .verif_dump()
+      .unwrap()
+      .iter()
+      .filter_map(|r| r.strip_prefix("utxo ").map(|t| t.split(' ').next().unwrap().to_string()))
+      .collect()
+  });
+  let full0 = slots[0].ix.index.have_full_utxo_index();
+  let is_fetched = |op: &OutPoint, created: u32| -> bool {
+    created < p.prefix
+      && match &tracked0 {
+        Some(t) => !t.contains(&op.to_string()),
+        None => !full0,
+      }
+  };
+  if p.short.is_some() {
+    dist.hit(if full0 { "case_000_full_utxo_index" } else { "case_000_fetches_from_node" });
   }
 
   // ---- rounds of rich blocks at heights >= prefix
@@ -546,6 +735,15 @@ fn run_case(p: &Params, rng: &mut Rng, out: &mut Streams, dist: &mut Dist, scrat
       let block = g.block(&slots[0].node, dist);
       push_all(&slots, &block);
       blocks.push(block);
+    }
+    if p.short.is_some() {
+      // one reveal per round whose 2–6 inputs are all prefix outputs (different vouts, different
+      // values): in the 000 index their values come from the node in one batch, and they decide
+      // the offsets and the fee of the inscriptions
+      if let Some(block) = multi_fetch_block(&mut g, &mut tail, &slots[0].node, p.prefix, &is_fetched, dist) {
+        push_all(&slots, &block);
+        blocks.push(block);
+      }
     }
     if round + 1 == p.rounds {
       if let Some(u) = &reserved {
@@ -603,24 +801,39 @@ fn run_case(p: &Params, rng: &mut Rng, out: &mut Streams, dist: &mut Dist, scrat
     for (i, b) in blocks.iter().enumerate() {
       let h = first_h + i as u32;
       let (mut f, mut s, mut t) = (0u64, 0u64, 0u64);
+      // the outpoints the 000 index sends to the fetcher for this block, in order
+      let mut asked: Vec<OutPoint> = Vec::new();
       for tx in b.txdata.iter().skip(1) {
+        let mut asked_tx: Vec<OutPoint> = Vec::new();
         for input in &tx.input {
           match g.txs.get(&input.previous_output.txid).map(|(_, ph)| *ph) {
             Some(ph) if ph == h => s += 1,
-            Some(ph) if ph < p.prefix => f += 1,
+            Some(ph) if is_fetched(&input.previous_output, ph) => {
+              f += 1;
+              asked_tx.push(input.previous_output);
+            }
             Some(_) => t += 1,
             None => dist.hit("unknown_input"),
           }
         }
-        let zero_in = tx.input.iter().any(|i| {
-          g.txs.get(&i.previous_output.txid).map(|(ptx, ph)| *ph < p.prefix && ptx.output[i.previous_output.vout as usize].value == Amount::ZERO).unwrap_or(false)
-        });
+        let zero_in = asked_tx.iter().any(|op| g.txs[&op.txid].0.output[op.vout as usize].value == Amount::ZERO);
         if zero_in {
           dist.hit("fetched_zero_value_input");
         }
-        let nf = tx.input.iter().filter(|i| g.txs.get(&i.previous_output.txid).map(|(_, ph)| *ph < p.prefix).unwrap_or(false)).count();
-        if nf >= 2 {
+        if asked_tx.len() >= 2 {
           dist.hit("tx_with_several_fetched_inputs");
+          if asked_tx.iter().any(|op| op.vout != asked_tx[0].vout) {
+            dist.hit("tx_multi_vout_fetch");
+          }
+        }
+        asked.extend(asked_tx);
+      }
+      // a batch of >= 2 fetched outputs that are not all at the same vout
+      if asked.len() >= 2 && asked.iter().any(|op| op.vout != asked[0].vout) {
+        dist.hit("multi_vout_fetch_batches");
+        if asked[1..].iter().any(|op| op.vout != asked[1].vout) {
+          // … even if the fetcher takes the first outpoint alone and the rest as a second batch
+          dist.hit("multi_vout_fetch_batches_after_first");
         }
       }
       dist.add("fetched_inputs", f);
@@ -672,11 +885,20 @@ fn run_case(p: &Params, rng: &mut Rng, out: &mut Streams, dist: &mut Dist, scrat
     // `prerune`); when the 000 index does see the prefix rune (repaired `first_index_height`) every
     // rune row must be equal, and the line reads `prerune=0` like any other line without a hidden rune.
     let prefix_rune_row = format!("rune {hp}:1 ");
-    let hidden = prerune && !projs[0].iter().any(|r| r.starts_with(&prefix_rune_row));
+    let has_prefix_rune = |proj: &Vec<String>| proj.iter().any(|r| r.starts_with(&prefix_rune_row));
+    let seen0 = has_prefix_rune(&projs[0]);
     if prerune {
-      dist.hit(if hidden { "prefix_rune_hidden_from_000" } else { "prefix_rune_seen_by_000" });
+      dist.hit(if seen0 {
+        "prefix_rune_seen_by_000"
+      } else if projs[1..].iter().any(has_prefix_rune) {
+        "prefix_rune_hidden_from_000"
+      } else {
+        // etched below the (overridden) first rune height: no index has it
+        "prefix_rune_below_first_rune_height"
+      });
     }
     for i in 1..slots.len() {
+      let hidden = prerune && !seen0 && has_prefix_rune(&projs[i]);
       let kind = classify(&projs[0], &projs[i], prelost, hidden, slots[i].flags.sats);
       if kind != "none" && std::env::var("FLAGSX_VERBOSE").is_ok() {
         // every differing row, for the notes (stderr only)
@@ -722,7 +944,9 @@ fn run_case(p: &Params, rng: &mut Rng, out: &mut Streams, dist: &mut Dist, scrat
       dist.hit(if sp[0] == sp[i] { "lostsat_equal" } else { "lostsat_differs" });
       out.emit(&format!("flagsx.oracle.lostsat {} {} case={case} mode={mode} flags={} prelost={prelost}", sp[0], sp[i], slots[i].tag), "true");
     }
-    eprintln!("[flagsx] case {case} mode {mode}: lost inscription {id} at {}", slots.iter().zip(&sp).map(|(s, p)| format!("{}={p}", s.tag)).collect::<Vec<_>>().join(" "));
+    if p.short.is_none() {
+      eprintln!("[flagsx] case {case} mode {mode}: lost inscription {id} at {}", slots.iter().zip(&sp).map(|(s, p)| format!("{}={p}", s.tag)).collect::<Vec<_>>().join(" "));
+    }
   }
   dist.hit(&format!("case_{mode}"));
   if prerune {
@@ -733,7 +957,9 @@ fn run_case(p: &Params, rng: &mut Rng, out: &mut Streams, dist: &mut Dist, scrat
   let rss = peak_rss_mb();
   let d = dist.0.entry("peak_rss_mb".into()).or_insert(0);
   *d = (*d).max(rss);
-  eprintln!("[flagsx] case {case} mode {mode}: done in {secs:.1}s, peak rss {rss} MB");
+  if p.short.is_none() {
+    eprintln!("[flagsx] case {case} mode {mode}: done in {secs:.1}s, peak rss {rss} MB");
+  }
   drop(slots);
 }
 
@@ -747,13 +973,14 @@ fn main() {
   let mut dist = Dist::default();
   let scratch = args.out.join("scratch");
   std::fs::create_dir_all(&scratch).unwrap();
-  assert_eq!(args.stream, "signet", "unknown stream {}", args.stream);
+  assert!(args.stream == "signet" || args.stream == "regtest-fh", "unknown stream {}", args.stream);
+  let short_stream = args.stream == "regtest-fh";
   let num = |k: &str, d: u64| args.get(k).map(|v| v.parse::<u64>().unwrap()).unwrap_or(d);
   let model = num("model", 1) == 1;
   let replay = args.replay.as_ref().map(|p| replay_lines(p));
   let skip = num("skip", 0) == 1 || replay.as_ref().map(|l| l.first().map(|f| f.starts_with("flagsx.skipped")).unwrap_or(true)).unwrap_or(false);
   if skip {
-    out.emit("flagsx.skipped signet", "ok");
+    out.emit(&format!("flagsx.skipped {}", args.stream), "ok");
     dist.hit("skipped");
   } else if let Some(lines) = replay {
     // a corpus file: every `flagsx.scenario` line is re-run from its parameters (same seed and
@@ -768,6 +995,10 @@ fn main() {
         tailblocks: kv(line, "tailblocks").unwrap().parse().unwrap(),
         prerune: Some(kv(line, "prerune").unwrap() == "1"),
         model,
+        short: match kv(line, "chain") {
+          Some("regtest") => Some(kv(line, "first_rune").unwrap().parse().unwrap()),
+          _ => None,
+        },
       };
       let mut rng = Rng::new(p.seed);
       let mut r = rng.fork();
@@ -788,15 +1019,40 @@ fn main() {
         Some(m) => panic!("unknown mode {m}"),
         None => (args.seed.wrapping_add(case)) % 2 == 1,
       };
-      let p = Params {
-        seed: args.seed,
-        case,
-        lossy,
-        prefix: num("prefix", 112402) as u32,
-        rounds: num("rounds", 8),
-        tailblocks: num("tailblocks", 3),
-        prerune: args.get("prerune").map(|v| v == "1"),
-        model,
+      let p = if short_stream {
+        // chain regtest; first inscription height = prefix length in 8..=40, first rune height
+        // 0 / below / equal / above it — both overridden for this process (ord::verif::overrides)
+        let mut pr = Rng::new(args.seed.wrapping_mul(0x9e37_79b9).wrapping_add(case).wrapping_add(0xf1a9));
+        let prefix = args.get("prefix").map(|v| v.parse().unwrap()).unwrap_or(8 + pr.below(33) as u32);
+        let first_rune = match pr.below(8) {
+          0 => 0,
+          1..=3 => 1 + pr.below(u64::from(prefix) - 1) as u32,
+          4 => prefix,
+          _ => prefix + 1 + pr.below(10) as u32,
+        };
+        Params {
+          seed: args.seed,
+          case,
+          lossy,
+          prefix,
+          rounds: num("rounds", 4),
+          tailblocks: num("tailblocks", 3),
+          prerune: args.get("prerune").map(|v| v == "1"),
+          model,
+          short: Some(args.get("first_rune").map(|v| v.parse().unwrap()).unwrap_or(first_rune)),
+        }
+      } else {
+        Params {
+          seed: args.seed,
+          case,
+          lossy,
+          prefix: num("prefix", 112402) as u32,
+          rounds: num("rounds", 8),
+          tailblocks: num("tailblocks", 3),
+          prerune: args.get("prerune").map(|v| v == "1"),
+          model,
+          short: None,
+        }
       };
       run_case(&p, &mut r, &mut out, &mut dist, &scratch);
     }
